@@ -226,7 +226,12 @@ def attempt(case, variant=0, workdir=None):
     # ---- known_hosts text ----
     text = []
     forms = []
-    for i, ln in enumerate(case['lines']):
+    lines = list(case['lines'])
+    if case.get('shuffle'):
+        # the table lists a *set* of lines: the order in the file is ours
+        import random as _random
+        _random.Random(v).shuffle(lines)
+    for i, ln in enumerate(lines):
         opts = pattern_forms(ln['match'], port, lookup_host, real_host)
         if by_addr:
             # name == address: an address literal inside a *pattern* entry
